@@ -335,6 +335,13 @@ class FunctionEstimator(BaseEstimator):
             message = "Required argument y is missing."
             raise ValueError(message)
         landmarks = self.landmarks
+        if (
+            self.gp_type == GaussianProcessType.FULL
+            or self.gp_type == GaussianProcessType.FULL_NYSTROEM
+        ):
+            # Non-sparse models are conditioned on all cells; user supplied landmarks
+            # (not fewer than cells) play no role.
+            landmarks = None
         mu = self.mu
         cov_func = self.cov_func
         sigma = self.sigma
